@@ -1,0 +1,23 @@
+//go:build verif
+
+// Contracts for the contract-storage cache, read by /verif/gocv. The ghost state `Store`
+// (KeyT -> optional bytes) is the abstract view of contract storage as seen through a CacheDB:
+// transaction layer over block layer over the persisted store (C10 is the property that this
+// view is what Get/Put/Delete implement; here it is the assumed contract of the three methods).
+package storage
+
+//@ func (*CacheDB).Get
+//@   trusted   -- MemDB/OverlayDB/LevelDB below (C09, C10): assumed to implement the abstract map
+//@   ensures r1 == nil ==> ((r0 == nil) <==> Store[keyOf(bytes(key))] == None)
+//@   ensures r1 == nil && r0 != nil ==> bytes(r0) == someval(Store[keyOf(bytes(key))])
+
+//@ func (*CacheDB).Put
+//@   trusted
+//@   requires len(value) != 0   -- an empty value is a deletion marker in MemDB; callers never store one
+//@   modifies Store
+//@   ensures Store == upd(old(Store), keyOf(bytes(key)), Some(bytes(value)))
+
+//@ func (*CacheDB).Delete
+//@   trusted
+//@   modifies Store
+//@   ensures Store == upd(old(Store), keyOf(bytes(key)), None)
